@@ -5,7 +5,7 @@ from sweeps import ALL, WS, program_units
 from diffrun import Cfg
 from common import REPO, VERIF
 
-PROPS_VO = ['Props/C18.vo']
+PROPS_VO = ['Props/C18.vo', 'Props/C18_lint.vo']
 GEN_ITEMS = ['coq/Gen/GenLayout.v', 'coq/Gen/GenExit.v']
 GEN_FROM = {'regen_exit': ['coq/Gen/GenExit.v']}
 LEVEL = 'proof'
